@@ -27,13 +27,16 @@ Proof. exact sv_get_raw_sound. Qed.
 Print Assumptions C01_lookup_is_newest.
 
 (** (3) Flush and compaction rewrite data through the compaction stream; for every key
-    and every snapshot above all of the key's versions the stream's output reads exactly
+    driven by inserts and (strong) deletes - no weak tombstone among its versions - and
+    every snapshot above all of the key's versions the stream's output reads exactly
     like its input (deleted keys stay deleted, overwritten values never resurface),
-    for every watermark and with or without last-level tombstone eviction. *)
+    for every watermark and with or without last-level tombstone eviction.
+    (Weak deletes are property C13.) *)
 Theorem C01_stream_preserves_newest :
   forall W evict l out log, ssorted l = true ->
   run_stream W evict no_filter l = (out, log) ->
   forall k S, (forall e, In e l -> ukey e = k -> seq e < S) ->
+  (forall e, In e l -> ukey e = k -> ty e <> WeakTomb) ->
   visible (newest k S out) = visible (newest k S l).
 Proof. exact cstream_top_view_nofilter. Qed.
 Print Assumptions C01_stream_preserves_newest.
